@@ -261,6 +261,26 @@ class Gen:
         el = self.body(depth - 1, r.randrange(1, 3), in_loop) if r.random() < 0.7 else None
         return pre + [S("if", cond, th, el)]
 
+    def simple_loop(self, in_loop):
+        """`for (var i = 0; i < bound; i++) { .. }` as one statement; the bound is a literal, a parameter or (templates) an
+        input signal masked to two bits, the body assigns visible scalars."""
+        r = self.r
+        self.n += 1
+        i = "i%d" % self.n
+        k = r.random()
+        sigs = [n for n, l in self.sig_in if l is None] if self.template else []
+        if k < 0.3 and sigs:
+            bound = ("bin", "&", ("var", r.choice(sigs)), ("num", 3))
+        elif k < 0.6 and self.params:
+            bound = ("var", r.choice(self.params))
+        else:
+            bound = ("num", r.randrange(1, 4))
+        self.scopes.append([(i, "s")])
+        self.protected.add(i)
+        body = self.body(0, r.randrange(1, 3), True)
+        self.scopes.pop()
+        return [S("for", S("decl", i, [], ("num", 0)), ("bin", "<", ("var", i), bound), S("incr", i, "++"), body)]
+
     def extra(self, depth, in_loop):
         """Shapes added after the third audit (each counted as a feature): sub-components and their ports,
         anonymous components, tuples, a signal / compound expression as index, trip counts that depend on a
@@ -473,6 +493,13 @@ class Gen:
             if r.random() < 0.5:
                 self.features.add("else")
                 el = self.body(depth - 1, r.randrange(1, 3), in_loop)
+            if r.random() < 0.2:
+                # a loop as the LAST statement of a branch (the branch is left from a loop header)
+                self.features.add("branch-ends-in-loop")
+                if el is not None and r.random() < 0.5:
+                    el = el + self.simple_loop(in_loop)
+                else:
+                    th = th + self.simple_loop(in_loop)
             return [S("if", cnd, th, el)]
         if c < 0.82 and depth > 0:
             k = r.random()
@@ -557,6 +584,18 @@ class Gen:
                 n, ln = self.sig_out[0]
                 idx = [("num", 0) for _ in dimsof(ln)]
                 body.append(S("sigassign", n, idx, "<--", self.expr(1, prefer=sc[-3:])))
+            k = r.random()
+            if k < 0.10:
+                # the definition ENDS in a loop: no block without successor, the loop header is the exit
+                self.features.add("trailing-loop")
+                body += self.simple_loop(False)
+            elif k < 0.16:
+                # ... or in a branch whose last statement is a loop
+                self.features.add("trailing-loop")
+                self.features.add("branch-ends-in-loop")
+                th = self.body(1, r.randrange(0, 2), False) + self.simple_loop(False)
+                el = (self.body(1, r.randrange(0, 2), False) + self.simple_loop(False)) if r.random() < 0.4 else None
+                body.append(S("if", self.cond(1), th, el))
         return {"kind": "template" if self.template else "function", "name": "T" if self.template else "f",
                 "params": list(self.params), "body": body,
                 "sig_in": list(self.sig_in), "features": sorted(self.features)}
